@@ -164,6 +164,15 @@ func getCorpus(id int) *sCorpus {
 			RawConfig:            map[string]string{"priority": []string{"0", "5", "10", "10"}[rng.IntN(4)], "public": "1"},
 			Branches:             []zoekt.RepositoryBranch{{Name: "HEAD", Version: fmt.Sprintf("v%d-%d", id, i)}},
 		}
+		if i%3 == 1 {
+			// a sub-repository (submodule): its name and URL templates travel in RepoURLs / LineFragments
+			repo.SubRepoMap = map[string]*zoekt.Repository{"third_party/sub": {
+				Name:                 fmt.Sprintf("%s-sub", name),
+				URL:                  fmt.Sprintf("http://t%d.example/%s-sub", tenantID, name),
+				FileURLTemplate:      fmt.Sprintf("http://t%d.example/%s-sub/blob/{{.Version}}/{{.Path}}", tenantID, name),
+				LineFragmentTemplate: fmt.Sprintf("#t%d%ssubL{{.LineNumber}}", tenantID, name),
+			}}
+		}
 		twoBranches := rng.IntN(2) == 0
 		if twoBranches {
 			repo.Branches = append(repo.Branches, zoekt.RepositoryBranch{Name: "dev", Version: fmt.Sprintf("d%d-%d", id, i)})
